@@ -104,6 +104,8 @@ type fake struct {
 	sctx      context.Context // context the pool hands to HandleMessage for this stream
 	gotId     uint32
 	ended     string // why the harness knows the stream has ended ("" = it has not)
+	closeBlocks bool         // Close() parks until released
+	closeGate   chan struct{} // non-nil while Close() is parked
 }
 
 type arrival struct {
@@ -114,13 +116,31 @@ type arrival struct {
 func (f *fake) Context() context.Context { return f.ctx }
 func (f *fake) CloseSend() error         { return nil }
 
+// Close marks the stream closed (a parked MsgSend / MsgRecv returns an error, as on a real stream) and
+// then, for a stream whose remote is stuck, parks until the harness releases it (or teardown).
+// The pool must call it WITHOUT holding its mutex: everything else has to keep working meanwhile.
 func (f *fake) Close() error {
-	f.w.mu.Lock()
+	w := f.w
+	w.mu.Lock()
+	var g chan struct{}
 	if !f.closed {
 		f.closed = true
 		close(f.closedCh)
+		if f.closeBlocks {
+			g = make(chan struct{})
+			f.closeGate = g
+		}
 	}
-	f.w.mu.Unlock()
+	w.mu.Unlock()
+	if g != nil {
+		select {
+		case <-g:
+		case <-w.teardown:
+		}
+		w.mu.Lock()
+		f.closeGate = nil
+		w.mu.Unlock()
+	}
 	return nil
 }
 
@@ -366,11 +386,11 @@ func (w *world) newFake(peerId, capRaw int, gated bool, failAt int, withPeer boo
 	return f
 }
 
-func newWorld(workers, qsize, ntags int) *world {
+func newWorld(workers, qsize, ntags, cfgSendQueue int) *world {
 	installFatalHook()
 	w := &world{plans: map[int]*spec{}, teardown: make(chan struct{}), ntags: ntags}
 	curWorld.Store(w)
-	w.pool = sp.NewStreamPool(&handler{w}, sp.StreamConfig{SendQueueSize: 10, DialQueueWorkers: workers, DialQueueSize: qsize},
+	w.pool = sp.NewStreamPool(&handler{w}, sp.StreamConfig{SendQueueSize: cfgSendQueue, DialQueueWorkers: workers, DialQueueSize: qsize},
 		sp.WithStreamCloseHook(w.onClose))
 	_ = w.pool.Run(context.Background())
 	return w
@@ -499,7 +519,11 @@ func (w *world) fakeObs(commit bool) (streams, running string, ready bool) {
 			if f.parked {
 				infl = fmt.Sprint(f.parkedMsg)
 			}
-			parts = append(parts, fmt.Sprintf("%d:L:%s:%s", f.sid, infl, nd))
+			state := "L"
+			if f.closed {
+				state = "K" // Close() was called, the pool has not removed the stream (yet)
+			}
+			parts = append(parts, fmt.Sprintf("%d:%s:%s:%s", f.sid, state, infl, nd))
 		}
 		if commit {
 			f.reported = len(f.delivered)
